@@ -926,7 +926,35 @@ Definition view (st : sstate) : schema :=
   mkschema (s_name top) (s_aliases top) (map (fun i => nth i h dummy_column) refs) (s_pk top)
            (s_rcm top) (s_rce top) (s_dsm top) (s_dse top).
 
+(* Round 7: looking columns up by name.  FlatColumn.all_names is aliases + [name] (TypeError when aliases is neither a
+   list nor None); RelationSchema.find_column(name) - which RelationSchema.column(name) and DataFrame.description go
+   through - returns the FIRST column of the columns list, as it is now, one of whose names is the text asked for.
+   The answer is a position in the columns list (None: no column answers). *)
+Definition atom_is_text (name : str) (a : atom) : bool := match a with AText t => str_eqb t name | _ => false end.
+Definition answers_to (name : str) (c : column) : result bool :=
+  match c_aliases c with
+  | PL l => Ok (existsb (atom_is_text name) l || match c_name c with PA a => atom_is_text name a | PL _ => false end)
+  | PA ANone => Ok (match c_name c with PA a => atom_is_text name a | PL _ => false end)
+  | PA _ => Raise TypeError
+  end.
+Fixpoint find_pos (name : str) (cs : list column) (i : nat) : result (option nat) :=
+  match cs with
+  | [] => Ok None
+  | c :: r => match answers_to name c with
+              | Ok true => Ok (Some i)
+              | Ok false => find_pos name r (S i)
+              | Raise e => Raise e
+              end
+  end.
+Definition find_col (s : schema) (name : str) : result (option nat) := find_pos name (s_columns s) 0.
+Definition optnat_eqb (a b : option nat) : bool :=
+  match a, b with Some x, Some y => Nat.eqb x y | None, None => true | _, _ => false end.
+
 Inductive sop :=
+| SListSet (i : nat) (o : nat)                  (* schema.columns[i] = obj_o: a column redefined in place (round 7) *)
+| SFind (name : str) (live rest : result (option nat))
+                                                (* schema.find_column(name) / schema.column(name), and the same on a schema
+                                                   restored just now: observed, as positions in the columns lists (round 7) *)
 | SColSet (o : nat) (f : field) (v : pv)        (* obj_o.f = v *)
 | SColAppend (o : nat) (f : field) (a : atom)   (* obj_o.f.append(a) *)
 | STopSet (t : topf) (v : pv)                   (* schema.t = v *)
@@ -958,7 +986,8 @@ Definition step (st : sstate) (op : sop) : option sstate :=
       end
   | SListAppend o => Some (h, refs ++ [o], top)
   | SListPop => Some (h, removelast refs, top)
-  | SScribble | SRound _ _ | SJson _ _ _ | SSave | SRestoreSaved _ => Some st
+  | SListSet i o => if Nat.ltb i (List.length refs) then Some (h, upd i (fun _ => o) refs, top) else None
+  | SScribble | SRound _ _ | SJson _ _ _ | SSave | SRestoreSaved _ | SFind _ _ _ => Some st
   end.
 Fixpoint exec (st : sstate) (ops : list sop) : option sstate :=
   match ops with
@@ -980,6 +1009,10 @@ Definition obs_ok (P : str -> params -> pv -> result pv) (sers : list ser_table)
       let S := ser_of (nth o sers []) in
       result_eqb jval_eqb (to_json S c) oj &&
       result_eqb column_eqb (bind (to_json S c) (from_json P [])) (resolve (Ok (nth o built dummy_column)) back)
+  | SFind name live rest =>
+      let s := view st in
+      result_eqb optnat_eqb (find_col s name) live &&
+      result_eqb optnat_eqb (bind (from_dict P (fun _ => []) (to_dict s)) (fun r => find_col r name)) rest
   | _ => true
   end.
 (* [saved]: the dictionary the caller kept at the last SSave (a VALUE: what the schema was then), with the objects
